@@ -716,6 +716,11 @@ fn dump_body<'tcx>(cx: &Cx<'tcx>, def: LocalDefId) -> J {
         o.push(("unsafe", J::Bool(sig.safety().is_unsafe())));
         o.push(("vis", s(format!("{:?}", tcx.visibility(did)))));
         o.push(("pub", J::Bool(tcx.visibility(did).is_public())));
+        // nominally `pub` items of private modules are not API: what a user of the crate can name or be handed
+        if let Some(ld) = did.as_local() {
+            let ev = tcx.effective_visibilities(());
+            o.push(("exported", J::Bool(ev.is_reachable(ld))));
+        }
         let gens = tcx.generics_of(did);
         let mut gp = Vec::new();
         let mut g = Some(gens);
